@@ -49,6 +49,11 @@ func cmdGen(args []string) {
 				s = stallScript(r, id, i)
 			case "early":
 				s = earlyReturnScript(r, tr, id, i)
+			case "gc":
+				if tr == "http" || tr == "ref" {
+					continue
+				}
+				s = gcScript(r, tr, id, i)
 			}
 			if tr == "http" || tr == "ref" {
 				// over sockets a handler of an earlier, cancelled call may start
@@ -237,5 +242,32 @@ func earlyReturnScript(r *rand.Rand, tr, id string, i int) *Script {
 	s.H = number(h)
 	s.CS = number(s.CS)
 	s.NTrl = maxArg(s.H, "SetTrailer")
+	return s
+}
+
+// gcScript: garbage collections while the caller's last operation on the
+// stream is blocked. Both transports cancel a stream from a finalizer when it
+// becomes unreachable; that must not happen under a call in progress.
+func gcScript(r *rand.Rand, tr, id string, i int) *Script {
+	s := &Script{ID: id, Tr: tr, Mode: "sched", Seed: r.Int63(), Calls: 1, ReqMD: true, MsgCls: "small"}
+	s.Kind = []string{"sstream", "bidi", "cstream"}[i%3]
+	st := 0
+	if i%4 == 3 {
+		st = 1
+		s.StCls = []string{"plain"}
+	}
+	s.CS = []Op{{Name: "Send"}, {Name: "CloseSend"}}
+	s.CR = []Op{{Name: "RecvLast"}}
+	h := []Op{{Name: "Recv"}}
+	if st == 0 {
+		h = append(h, Op{Name: "Send"})
+	}
+	h = append(h, Op{Name: "Return", Arg: st})
+	s.Sched = []string{"cs", "cs", "h", "cr", "gc", "gc"}
+	for range h[1:] {
+		s.Sched = append(s.Sched, "h")
+	}
+	s.H = number(h)
+	s.CS = number(s.CS)
 	return s
 }
